@@ -5,7 +5,7 @@ import math
 import numpy as np
 from hypothesis import strategies as st
 
-from harness import build, gen
+from harness import reps, build, gen
 from harness import refmodel as rm
 
 RULE = (
@@ -476,6 +476,32 @@ def check_affine(case, ctx):
         vz = var_of_stacked(c.tomo, c.n, c.m, xz) if c.flag else xz.copy()
         ctx.label("circuit:impossible-first-outcome")
         check_circuit_point(c, tomo, AB, vz, xz, ctx, "impossible-first-outcome")
+
+    # ---- one-schedule runs (the path generate_empi_dist takes) for two different candidates, after a full run that failed
+    #      on an unusable object and was caught by the caller: each run is the circuit of ITS object
+    if c.tomo in ("qpt", "qmpt") and reps.pick(repr(c.x0.tolist()), 2) == 0:
+        try:
+            tomo.generate_prob_dists_sequence(tomo.generate_empty_estimation_obj_with_setting_info())
+            ctx.label("failed-full-run:did-not-raise")
+        except Exception:
+            ctx.label("failed-full-run:raised")
+        t0_ = c.T[:, 0]
+        tx0 = c.P @ t0_
+        mx0 = float(np.max(np.abs(c.L @ tx0)))
+        dl = 1.0 if mx0 == 0.0 else min(1.0, 0.5 * pmin / mx0)
+        attr = "gates" if c.tomo == "qpt" else "mprocesses"
+        for tag, v, x in (("v0", c.v0, c.x0), ("t0", c.v0 + dl * t0_, c.x0 + dl * tx0)):
+            obj = tomo.convert_var_to_qoperation(np.array(v, dtype=np.float64))
+            ex = tomo.experiment.copy()
+            lst = getattr(ex, attr)
+            for k_ in range(len(lst)):
+                lst[k_] = obj
+            ref = c.L @ x
+            for j in range(len(c.pairs)):
+                if not ctx.close(np.asarray(ex.calc_prob_dist(j), dtype=float), ref[c.offsets[j]:c.offsets[j + 1]],
+                                 tol_for(c, 1.0 + float(np.max(np.abs(x)))), f"single_schedule_circuit_vs_born:{c.tomo}",
+                                 f"schedule {j} point {tag}"):
+                    break
 
     nt_dirs = c.T.shape[1]
     if nt_dirs <= full_basis_limit(case):
